@@ -398,6 +398,22 @@ class Parser:
     def parse_prefix_expression(self, stream: TokenStream) -> Expression:
         tok = stream.next_token()
         assert tok.type_ == TokenType.NOT
+
+        # Only a parenthesized expression, a query or a function call can be negated.
+        if stream.current.type_ not in (
+            TokenType.LPAREN,
+            TokenType.ROOT,
+            TokenType.CURRENT,
+            TokenType.FUNCTION,
+        ):
+            if stream.current.type_ in (TokenType.EOF, TokenType.RBRACKET):
+                msg = "end of expression"
+            else:
+                msg = repr(stream.current.value)
+            raise JSONPathSyntaxError(
+                f"unexpected {msg} after '!'", token=stream.current
+            )
+
         return PrefixExpression(
             tok,
             operator="!",
